@@ -23,7 +23,7 @@ LEVEL_NOTE = ("Trusted: Coq kernel; the store model's object graph (which cells 
               "objects; determinism of the external ECDSA signer (RFC6979) is observed, not proved. The library's own idiom of appending witnesses is "
               "order-dependent by construction; the harness writes witness slot i of a pre-sized list.")
 N = 0xFFFFFFFFFFFFFFFFFFFFFFFFFFFFFFFEBAAEDCE6AF48A03BBFD25E8CD0364141
-KINDS = ["legacy", "v0", "tr"]
+KINDS = ["legacy", "v0", "tr", "nested"]     # nested = P2SH-P2WPKH: a scriptSig AND a witness on one input
 
 
 def _mk_case(rng, nin):
@@ -92,7 +92,7 @@ def _run_order(d, order):
                 digs[i] = tx.get_transaction_digest(i, Script(_p2pkh(pub)), inp["ht"]).hex()
                 sigs[i] = sk.sign_input(tx, i, Script(_p2pkh(pub)), inp["ht"])
                 again = sk.sign_input(tx, i, Script(_p2pkh(pub)), inp["ht"])
-            elif inp["kind"] == "v0":
+            elif inp["kind"] in ("v0", "nested"):
                 digs[i] = tx.get_transaction_segwit_digest(i, Script(_p2pkh(pub)), inp["amt"], inp["ht"]).hex()
                 sigs[i] = sk.sign_segwit_input(tx, i, Script(_p2pkh(pub)), inp["amt"], inp["ht"])
                 again = sk.sign_segwit_input(tx, i, Script(_p2pkh(pub)), inp["amt"], inp["ht"])
@@ -106,6 +106,9 @@ def _run_order(d, order):
             if inp["kind"] == "legacy":
                 tx.inputs[i].script_sig = Script([sigs[i], pub])
             elif inp["kind"] == "v0":
+                tx.witnesses[i] = TxWitnessInput([sigs[i], pub])
+            elif inp["kind"] == "nested":
+                tx.inputs[i].script_sig = Script([Script(["OP_0", _p2pkh(pub)[2]]).to_hex()])
                 tx.witnesses[i] = TxWitnessInput([sigs[i], pub])
             else:
                 tx.witnesses[i] = TxWitnessInput([sigs[i]])
@@ -228,7 +231,7 @@ def model(d):
             code = [["op", "OP_DUP"], ["op", "OP_HASH160"], ["data", _p2pkh(pub)[2]], ["op", "OP_EQUALVERIFY"], ["op", "OP_CHECKSIG"]]
             if inp["kind"] == "legacy":
                 qs.append(sx("legacy_pre", tx_sx(d["tx"]), i, toks_sx(code), inp["ht"]))
-            elif inp["kind"] == "v0":
+            elif inp["kind"] in ("v0", "nested"):
                 qs.append(sx("segwit_pre", tx_sx(d["tx"]), i, toks_sx(code), inp["amt"], inp["ht"]))
             else:
                 qs.append(sx("taproot_digest", tx_sx(d["tx"]), i, Raw("(" + " ".join(toks_sx(s).s for s in d["spks"]) + ")"),
